@@ -138,6 +138,10 @@ fn main() {
             }
         }
     });
+    enumerate_big(|c| {
+        dist("big");
+        do_case(&c);
+    });
     let mut rng = Rng::new(a.seed);
     let count = if thorough { 4000 } else { 400 };
     for _ in 0..count {
